@@ -272,11 +272,11 @@ def worker(outdir, k):
                     res['checks'] = {}
                     killed = None
                     for p in c['props']:
-                        rc, out = sh('./check %s 2>&1 | grep -E "^VIOLATION|signature:|^INCONCLUSIVE|tier=" | head -8' % p,
+                        rc, out = sh('./check %s > /verif/target/mut-last.log 2>&1; rc=$?; '
+                                     'grep -E "^VIOLATION|signature:|^INCONCLUSIVE|tier=" /verif/target/mut-last.log | head -12; exit $rc' % p,
                                      cwd=VERIF, timeout=3000)
-                        m = re.search(r'-> exit (\d)', out)
-                        code = int(m.group(1)) if m else 9
-                        res['checks'][p] = dict(exit=code, out=out[-700:])
+                        code = rc
+                        res['checks'][p] = dict(exit=code, out=out[-900:])
                         if code == 1:
                             killed = p
                             break
